@@ -127,7 +127,8 @@ class G:
             body = self.block(d - 1)
             self.depth_loop -= 1
             bound = self.r.choice([str(self.r.randint(0, 4)), f"({self.r.choice(['RsV', 'RtV', 'uiV'])} & {self.r.choice([3, 7])})", "((RtV >> 3) & 7) + 1"])
-            return f"for ({v} = 0; {v} < {bound}; {v}++) {{ {body} }}"
+            step = self.r.choice([f"{v}++", f"{v}++", f"{v} += 1", f"{v} = {v} + 1", f"{v} += 2"])
+            return f"for ({v} = 0; {v} < {bound}; {step}) {{ {body} }}"
         if c < 0.86 and self.locals and "postfix" not in self.avoid:
             l = self.r.choice(list(self.locals))
             t = self.target()
@@ -328,6 +329,9 @@ def stmt_programs(rng: random.Random, n: int):
                       exports=[("acc", "uint32_t")], vkey="loop:data"))
     items.append(dict(name="loop;nested", text="{ uint64_t acc = RuuV; j = 0; for (i = 0; i < (RsV & 3); i++) { for (j = 0; j < (RtV & 3); j++) { acc = acc + i * 4 + j; } acc <<= 1; } RddV = acc; ReV = i + j; }",
                       exports=[("acc", "uint64_t")], vkey="loop:nested"))
+    for step in ("i += 1", "i = i + 1", "i += 2", "i = i + 3"):
+        items.append(dict(name=f"loop;step;{step}", text=f"{{ int32_t acc = RsV; for (i = 0; i < (uiV & 15); {step}) {{ acc = acc * 3 + i; mem_store_u8((RtV + i), acc); }} RddV = acc; ReV = i; }}",
+                          exports=[("acc", "int32_t")], vkey="loop:step"))
     items.append(dict(name="loop;down", text="{ int32_t acc = 0; for (i = (RsV & 7); i > 0; i--) { acc += i; } RddV = acc; }", exports=[("acc", "int32_t")], vkey="loop:down"))
     items.append(dict(name="loop;declinit", text="{ int32_t acc = 1; int k2; for (k2 = 0; k2 < (RtV & 7); k2 = k2 + 2) { acc *= 3; } RddV = acc; ReV = k2; }", exports=[("acc", "int32_t")], vkey="loop:step2"))
     # (3) if / else chains
